@@ -20,9 +20,10 @@ LEVEL_TEXT = ("Theorem C09_supercell_forward (every PML-free scene of the model:
               "PEC/PMC masks, tiled source terms; any number of steps): on every cell of the supercell the state is the unit-cell state of cell (i mod N) "
               "times the per-copy phase. Hypothesis per tiled axis: first and last cell width of the period agree; C09_seam_width_needed_refuted shows "
               "by computation that the statement fails without it (the source uses w0 instead of (w0+w_{N-1})/2 for the dual cell across a periodic seam). "
-              "C09_supercell_forward_full_tensor is the same statement for the fully anisotropic lossless tiers (9-component tensors, co-location averages across the seam). "
+              "C09_supercell_forward_full_tensor / C09_supercell_forward_lossy_tensor are the same statement for the fully anisotropic tiers (9-component tensors, width-weighted "
+              "co-location averages across the seam; lossless, and conductive with per-cell 3x3 update matrices). "
               "Tie: per-step correspondence of the model on the unit cell and on the supercell (incl. 9-component media); tiling predicate on the implementation.")
-LEVEL_NOTE = ("Scenes with CPML layers on untiled axes and lossy 9-component tensors are outside the theorem (covered by the predicate only where generated); "
+LEVEL_NOTE = ("Scenes with CPML layers on untiled axes are outside the theorem (covered by the predicate only where generated); "
               "Bloch phases are oracle values.")
 TECHNIQUE = "Coq proof (div/mod index arithmetic, phase powers, 3-D lift through curls/updates, induction over steps) + differential unit-cell/supercell runs"
 
@@ -126,7 +127,7 @@ def predicate(case, out):
         return ("driver-error", out["error"] + out.get("trace", "")[-300:])
     for side in ("small", "big"):
         d = out.get(side, {})
-        if d.get("phase_err", 0.0) > 1e-9:
+        if d.get("phase_err", 0.0) > 1e-6:      # grid edges are stored in single precision: k * (edge round-off) reaches 1e-8
             return ("bloch-phase-value", f"{side} domain: get_bloch_phase differs from exp(i k L) by {d['phase_err']:.3e}")
         if any(case.get("kvec", [0, 0, 0])) and not d.get("cplx", True):
             return ("bloch-real-fields", f"{side} domain: a non-zero Bloch vector {case.get('kvec')} was declared but the fields were initialised real")
